@@ -376,10 +376,15 @@ func (s *storage) fetch(br blob.Ref, offset, length int64) (rc io.ReadCloser, si
 		return nil, 0, err
 	}
 
+	// s.fds grows under s.mu when an upload rolls over to the next pack file.
+	s.mu.Lock()
 	if meta.file >= len(s.fds) {
-		return nil, 0, fmt.Errorf("diskpacked: attempt to fetch blob from out of range pack file %d > %d", meta.file, len(s.fds))
+		n := len(s.fds)
+		s.mu.Unlock()
+		return nil, 0, fmt.Errorf("diskpacked: attempt to fetch blob from out of range pack file %d > %d", meta.file, n)
 	}
 	rac := s.fds[meta.file]
+	s.mu.Unlock()
 	var rs io.ReadSeeker
 	if length == -1 {
 		// normal Fetch mode
